@@ -22,6 +22,24 @@ PROPS = {
             {"name": "TestC10Snapshot", "quick": 4000, "thorough": 12000, "shards": 16},
         ],
     },
+    "C20": {
+        "level": "exploration",
+        "rule": "Layer 1: exhaustive enumeration of the 7 generated Relay connection functions over list lengths 0..8 x "
+                "first,last in {nil,-1,0..10} x after,before in {nil, every valid cursor, 8 kinds of invalid cursor}, and rapid "
+                "requests up to length 200; oracle = reference Relay pager (window by after/before, then first, then last), "
+                "independent cursor encoding, truthful hasNext/hasPrevious for pure forward/backward requests, totalCount. "
+                "Layer 2 (TestC20GraphQL): page walks over the served GraphQL API of a generated repository. "
+                "Non-trivial: a cursor strictly inside the list or a page that is neither empty nor the whole list. "
+                "Distinct: fingerprint = (function, length, size classes, cursor positions).",
+        "exhaustive": False,
+        "exhaustive_note": "TestC20Exhaustive enumerates its finite space completely (see notes.requests_enumerated); the other tests of this property sample",
+        "assumptions": ["crossing windows (before <= after) and undecodable / out-of-range cursors are only required to give a "
+                        "contiguous in-order duplicate-free slice with correct cursors and count, or an error"],
+        "tests": [
+            {"name": "TestC20Exhaustive", "quick": None, "thorough": None},
+            {"name": "TestC20Random", "quick": 20000, "thorough": 100000, "shards": 8},
+        ],
+    },
 }
 
 # Text for MANIFEST.json, per claimed property.
@@ -34,6 +52,15 @@ MANIFEST_TEXT = {
         "design_ref": "DESIGN.md §4 C10",
         "level_note": "Trusted: the reference interpreter (internal/refmodel) as a faithful reading of the statement; the exported "
                       "operation constructors; valid UTF-8 text only.",
+    },
+    "C20": {
+        "technique": "exhaustive enumeration of a bounded request space + rapid-generated requests and page walks vs a reference Relay pager",
+        "level_text": "Every combination of list length 0..8, page sizes and cursor kinds is enumerated for each generated connection "
+                      "function and compared with a reference pager; longer lists and the served GraphQL API are explored with generated "
+                      "requests and page walks. Exhaustive inside the stated bound, exploration beyond it.",
+        "design_ref": "DESIGN.md §4 C20",
+        "level_note": "Trusted: the reference pager as a reading of the Relay connection semantics the statement names; synthetic "
+                      "lists stand for real ones in layer 1 (the functions are generic over the element type).",
     },
 }
 
